@@ -34,6 +34,7 @@ pub const KINDS: &[&str] = &[
     // a header, a comment, a blank line — must not decide which one wins)
     "10,400,4,2,0,50,1,1", "10,-50,4,2,0,60,0,0", "Mode: 3", "Title:other", "Combo1: 9,9,9", "OSU FILE FORMAT V9", "osu File Format v9",
     // bracketed names a tool or a later format might use: none of them is a section
+    "osu file format v-2147483648", "osu file format v-2147483647", "osu file format v2147483647",
     "[Fonts]", "[Storyboard]", "[Skin]", "[Scores]", "[TimingPoint]", "[Timing Points]", "[Objects]", "[Editor ]", "[Info]",
 ];
 
@@ -138,6 +139,13 @@ impl Scenario for C05 {
             let long = format!("Tags:{}[Difficulty]", "x".repeat(n.saturating_sub(17)));
             let at = s.find('\n').map_or(0, |i| i + 1);
             s.insert_str(at, &format!("{long}\n"));
+        }
+        if rng.chance(1, 400) {
+            // tens of thousands of blank lines in front of everything (blank lines never change the outcome, however many)
+            let n = *rng.pick(&[10_000usize, 50_000, 200_000]);
+            let blank = *rng.pick(&["\n", "\r\n", "  \n", "\t\n"]);
+            s.insert_str(0, &blank.repeat(n));
+            p.faults.push("workload-many-leading-blank-lines".into());
         }
         let e = rng.below(4);
         p.data = encode_text(&s, ENCS[e]);
